@@ -50,6 +50,7 @@ theorem run_done_ok (E : Env) (payload : Bytes) : ∀ (fuel : Nat) (s : Sys) (t 
         obtain ⟨h1, -⟩ := hok
         simp only [itemsData, List.append_eq_nil_iff] at ht
         rw [ht.1] at h1; simp at h1
+      | feed rem offs => exact absurd hok (by simp [TodoOK])
 
 theorem run_doomed_err (E : Env) (fuel : Nat) (s : Sys) (todo : List Item) (h : Doomed s todo) (hf : 1 ≤ fuel) :
     (run E fuel s todo).2 = .err := by
@@ -148,6 +149,7 @@ theorem run_no_fuel (E : Env) (hE : Plain E) (payload : Bytes) :
                 Nat.mul_le_mul_left _ hle
               simp only [List.length_append, retxItems_length]
               omega
+      | feed rem offs => exact absurd hinv.todoOK (by simp [TodoOK])
 
 theorem filter_or_le (R : List Nat) (p q : Nat → Bool) :
     (R.filter fun n => p n || q n).length ≤ (R.filter p).length + (R.filter q).length := by
